@@ -504,6 +504,7 @@ pub fn generate(prop: &str, tier: &str, seed: u64, out: &mut impl Write) {
                   w!("{enc} req {ids} RWMS 1 2 3 {d} 300 A5"); w!("#@ {tag} req {ids} RWMS 1 2 3 {d}");
                   for k in ["RHRS", "RIRS", "RWMS"] { w!("{enc} rsp {ids} {k} {d} 300 A5"); w!("#@ {tag} rsp {ids} {k} {d}"); } } }
             if rtu { for sp in ["RES", "GCC", "GCL", "RSI"] { w!("rtuenc req 17 {sp} 8 A5"); w!("#@ C04 req 17 {sp}"); } }
+            else { for sp in ["RES", "GCC", "GCL", "RSI"] { w!("tcpenc req 7 9 {sp} 12 A5"); w!("#@ C05 req 7 9 {sp}"); } }
             for x in [0u32, 0x5A, 0xFF] { if rtu { w!("rtuenc rsp 17 RES {x} 8 A5"); w!("#@ C04 rsp 17 RES {x}"); } else { w!("tcpenc rsp 7 9 RES {x} 12 A5"); w!("#@ C05 rsp 7 9 RES {x}"); } }
             for bc in [1usize, 3, 5] {
                 // a transplanted decoded `Data` (odd byte count) framed as a write request
